@@ -28,7 +28,8 @@ ASSUMPTIONS = [
     'analytic mechanistic model is harness code; reference integrator for PKPD models']
 REQUIRED = ['kind:em', 'kind:pop', 'kind:ll', 'kind:hier', 'kind:fpost', 'kind:pred', 'kind:ctrl', 'kind:mech',
             'reconfigured', 'exhaustive', 'op:set_n_ids', 'op:fix', 'op:set_dim_names', 'op:set_parameter_names',
-            'op:set_population_parameters', 'op:rejected_selection', 'rejected_selection:cov']
+            'op:set_population_parameters', 'op:rejected_selection', 'rejected_selection:cov'] + \
+           ['controller_program:%s' % k for k in ('hetero_first', 'hetero_middle', 'hetero_only', 'no_hetero', 0, 1, 2, 3, 4, 5, 6)]
 POP_OPS = ['set_n_ids', 'set_dim_names', 'set_parameter_names', 'fix', 'release', 'set_population_parameters',
            'rejected_selection', 'wrap']
 
@@ -275,6 +276,85 @@ def hier_invariants(case, H, n_ids, what, posterior=None, default_names=False, x
     case.true(np.ndim(val) == 0, '%s: score of a vector of the reported length is not a scalar' % what)
     sc, g = obj.evaluateS1(x.copy())
     case.equal(len(np.asarray(g)), n, '%s: gradient length vs n_parameters()' % what, kind='shape')
+
+
+def _ctrl_pops():
+    import chi
+    return [
+        ('hetero_first', lambda: chi.ComposedPopulationModel([chi.HeterogeneousModel(n_dim=1),
+                                                              chi.GaussianModel(n_dim=2)])),
+        ('hetero_middle', lambda: chi.ComposedPopulationModel([chi.PooledModel(n_dim=1), chi.HeterogeneousModel(n_dim=1),
+                                                               chi.LogNormalModel(n_dim=1)])),
+        ('hetero_only', lambda: chi.HeterogeneousModel(n_dim=3)),
+        ('no_hetero', lambda: chi.ComposedPopulationModel([chi.PooledModel(n_dim=1), chi.GaussianModel(n_dim=2)])),
+    ]
+
+
+_CTRL_PROGRAMS = [('pop', 'fix', 'data3'), ('data2', 'pop', 'fix', 'data4'), ('pop', 'data2', 'fix', 'data3'),
+                  ('pop', 'data3', 'fix'), ('data3', 'pop', 'fix', 'data1'), ('pop', 'fix', 'data2', 'fix', 'data2'),
+                  ('data4', 'pop', 'fix', 'fix', 'data2', 'pop')]
+
+
+def _controller_programs(case, pick):
+    """A controller that is reconfigured (population model, fixed population parameters, data sets of other sizes) in
+    one of the enumerated orders: after every step the reported count equals the number of names and the size of the
+    predictive model; once data are set, it is the count of the population model for that many individuals (setting
+    data releases the fixed parameters, documented) and the size of the prior the controller accepts and of the
+    posterior it builds."""
+    import pandas as pd
+    import pints
+    from vf.analytic_model import AnalyticModel
+    import chi
+    pops = _ctrl_pops()
+    pname, build = pops[pick % len(pops)]
+    prog = _CTRL_PROGRAMS[(pick // len(pops)) % len(_CTRL_PROGRAMS)]
+    with case.clause('controller_program'):
+        case.labels.append('controller_program:%s' % pname)
+        case.labels.append('controller_program:%d' % _CTRL_PROGRAMS.index(prog))
+        ctrl = chi.ProblemModellingController(AnalyticModel(1, 2), [chi.GaussianErrorModel()])
+        n_ids, has_pop, n_fixed = None, False, 0
+        for step, op in enumerate(prog):
+            what = 'program %s over %s, after step %d (%s)' % ('/'.join(prog), pname, step + 1, op)
+            if op == 'pop':
+                ctrl.set_population_model(build())
+                has_pop, n_fixed = True, 0
+            elif op == 'fix':
+                names = ctrl.get_parameter_names()
+                ctrl.fix_parameters({names[-1]: 0.7})
+                n_fixed += 1
+            else:
+                n_ids = int(op[4:])
+                ctrl.set_data(pd.DataFrame(dict(
+                    ID=[i for i in range(1, n_ids + 1) for _ in range(3)], Time=[0.5, 1.0, 2.0] * n_ids,
+                    Observable=['y'] * (3 * n_ids), Value=[1.0 + 0.1 * k for k in range(3 * n_ids)])),
+                    output_observable_dict={ctrl.get_predictive_model().get_output_names()[0]: 'y'})
+                n_fixed = 0 if has_pop else n_fixed
+            n = ctrl.get_n_parameters()
+            case.equal(len(ctrl.get_parameter_names()), n, '%s: len(names) vs get_n_parameters()' % what)
+            case.equal(ctrl.get_predictive_model().n_parameters(), n, '%s: predictive model vs controller' % what)
+            twin = build() if has_pop else None
+            if twin is not None:
+                twin.set_n_ids(n_ids if n_ids is not None else 1)
+                if n_ids is not None:
+                    case.equal(n, twin.n_parameters() - n_fixed, '%s: count vs the population model configured for %d '
+                               'individuals with %d fixed parameter(s)' % (what, n_ids, n_fixed))
+            if n_ids is not None and not case.fails:
+                ctrl.set_log_prior(pints.ComposedLogPrior(*[pints.LogNormalLogPrior(0.0, 1.0) for _ in range(n)]))
+                P = ctrl.get_log_posterior()
+                if has_pop:
+                    case.equal(P.n_parameters(exclude_bottom_level=True), n, '%s: posterior top-level count vs controller'
+                               % what)
+                    case.equal(len(P.get_parameter_names()), P.n_parameters(), '%s: posterior names vs count' % what)
+                    case.equal(len(P.get_id()), P.n_parameters(), '%s: posterior IDs vs count' % what)
+                else:
+                    Ps = P if isinstance(P, list) else [P]
+                    for q in Ps:
+                        case.equal(q.n_parameters(), n, '%s: posterior count vs controller' % what)
+                if n_fixed:
+                    # (fixing resets the prior: the next step starts without one, as after every fix)
+                    pass
+            if case.fails:
+                return
 
 
 def check(case):
@@ -604,6 +684,10 @@ def check(case):
     if kind == 'mech':
         from vf import simshim
         simshim.install()
+        import zlib
+        _controller_programs(case, zlib.crc32(repr((s['ops'], structure(s))).encode()))
+        if case.fails:
+            return
         with case.clause('mechanistic'):
             ms = s['ms']
             M = sbmlgen.build(ms, chi.PKPDModel)
